@@ -26,7 +26,9 @@ SETTINGS = {
     "B": dict(nonorthogonal_xpoint_poloidal_spacing_range=0.02, nonorthogonal_target_all_poloidal_spacing_range_outer=0.3),
     "C": dict(nonorthogonal_radial_range_power=1.0),
     "E": dict(nonorthogonal_target_all_poloidal_spacing_range=0.15),
+    "F": dict(nonorthogonal_target_all_poloidal_spacing_length=0.7),
 }
+METHODS = {"poc": "poloidal_orthogonal_combined"}
 OTHER = [dict(ny_sol=12), dict(psinorm_sol=1.1), dict(finecontour_Nfine=50), dict(nx_core=6)]
 
 
@@ -41,13 +43,17 @@ def translate(chk):
 
 
 def base_cfg(fam="lsn"):
-    b = nonorth(SN if fam == "lsn" else CDN)
+    """fam = analytic family, optionally with a suffix _<method key> selecting a non-default nonorthogonal_spacing_method"""
+    b = nonorth(SN if fam.split("_")[0] == "lsn" else CDN)
     b.update(BASE_OPTS)
+    if "_" in fam:
+        b = {k: v for k, v in b.items() if k not in BASE_OPTS}
+        b["nonorthogonal_spacing_method"] = METHODS[fam.split("_")[1]]
     return b
 
 
 def fresh_cfg(fam, key):
-    c = tok(f"c15_{fam}_{key}", fam, base_cfg(fam), options=SETTINGS[key])
+    c = tok(f"c15_{fam}_{key}", fam.split("_")[0], base_cfg(fam), options=SETTINGS[key])
     c["tiers"] = []
     return c
 
@@ -71,6 +77,8 @@ def histories(tier, seed):
                       dict(op="redistribute", settings=dict(SETTINGS["B"], **OTHER[1]), partial=False, key="B", other=list(OTHER[1])), dict(op="calculateRZ"), O(),
                       dict(op="redistribute", settings=dict(SETTINGS["A"], **OTHER[2]), partial=True, key="A", other=list(OTHER[2])), dict(op="calculateRZ"), O(),
                       dict(op="redistribute", settings=dict(SETTINGS["D"], **OTHER[3]), partial=True, key="D", other=list(OTHER[3])), dict(op="calculateRZ"), O()]))
+    # the other documented spacing methods: the separatrix skeleton built at construction must not remember the non-orthogonal settings of that time
+    H.append(("lsn_poc", [R("F", False), dict(op="calculateRZ"), O(), R("D", False), dict(op="calculateRZ"), O()]))
     if tier == "thorough":
         rng = random.Random(seed)
         for fam in ("lsn", "lsn", "cdn"):
@@ -89,7 +97,7 @@ def histories(tier, seed):
 
 def run_history(args):
     fam, hist, path = args
-    cfg = tok(f"c15_{fam}_base", fam, base_cfg(fam))
+    cfg = tok(f"c15_{fam}_base", fam.split("_")[0], base_cfg(fam))
     rc, res, o, e = common.run_impl_json("impl/regrid.py", dict(cfg=cfg, history=hist, out=path), timeout=1500)
     if res is None or not os.path.exists(path):
         return None, (o + e)[-1500:]
@@ -108,7 +116,8 @@ def run(chk):
     H = histories(chk.tier, chk.seed)
     fams = sorted({f for f, _ in H})
     fresh = {}
-    gs = corpus.get(names=[], extra_cfgs=[fresh_cfg(f, k) for f in fams for k in SETTINGS])
+    needed = sorted({(f, op["key"]) for f, h in H for op in h if op["op"] == "redistribute"} | {(f, "D") for f in fams})
+    gs = corpus.get(names=[], extra_cfgs=[fresh_cfg(f, k) for f, k in needed])
     for g in gs:
         fresh[g.name] = g
     tmp = tempfile.mkdtemp(prefix="c15_", dir=common.SCRATCH if hasattr(common, "SCRATCH") else None)
@@ -152,6 +161,8 @@ def run(chk):
                     continue
                 nobs += 1
                 tag = f"{'partial' if partial else 'full'}-settings:{'calculateRZ' if crz else 'no-calculateRZ'}" + (":with-other-settings" if other else "")
+                if "_" in fam:
+                    tag += ":" + METHODS[fam.split("_")[1]]
                 w = worst.setdefault(tag, dict(pos=0.0, geom=0.0))
                 done = False
                 for rid, s in r["snap"].items():
